@@ -214,14 +214,15 @@ def playback(overlay, package, harness, release_too=False):
         cmd2 = ["cargo", "kani", "playback", "-p", package, "--lib", "-Z", "concrete-playback"] + KANI_FEATURES.get(package, [])
         if prof == "release":
             cmd2 += ["--release"]
-        cmd2 += ["--", test_names[0]]
+        # Kani emits one unit test per failed check AND per satisfied cover of the harness: run them all, any failure reproduces
+        cmd2 += ["--", "kani_concrete_playback_" + harness.split("::")[-1] + "_"]
         env2 = dict(env)
         # dependency builds of the playback unit test are shared between runs (the overlay's own crates are rebuilt)
         env2["CARGO_TARGET_DIR"] = os.path.join(CACHE, "playback-target")
         p2 = subprocess.run(cmd2, cwd=overlay.dir, env=env2, capture_output=True, text=True)
         txt = p2.stdout + p2.stderr
         failed = bool(re.search(r"test result: FAILED", txt))
-        passed = bool(re.search(r"test result: ok\. 1 passed", txt))
+        passed = bool(re.search(r"test result: ok\. [1-9]\d* passed", txt))
         out[prof] = "fails" if failed else ("passes" if passed else "error")
         if failed:
             ok_any = True
